@@ -63,12 +63,15 @@ type Exec struct {
 	curIface types.Type
 	curMethod string
 	cuts int
+	inInit bool
+	initRan map[string]bool
+	knownFuncs map[string]*FuncV
 }
 
 func newExec(w *World, sp *Specs, fn *ssa.Function, spec *FuncSpec) *Exec {
 	return &Exec{w: w, sp: sp, fn: fn, key: funcKey(fn), spec: spec, notes: map[string]bool{}, strlits: map[string]*Term{}, fltlits: map[string]*Term{},
 		factDone: map[string]bool{}, budget: 6000, labels: map[ssa.Instruction]string{}, loops: map[*ssa.Function]*loopInfo{}, safety: true,
-		usedExtern: map[string]bool{}, tids: map[string]int64{}, inlineDepthMax: 4, calls: map[string]int{}}
+		usedExtern: map[string]bool{}, tids: map[string]int64{}, inlineDepthMax: 4, calls: map[string]int{}, initRan: map[string]bool{}, knownFuncs: map[string]*FuncV{}}
 }
 
 func (x *Exec) note(format string, a ...interface{}) { x.notes[fmt.Sprintf(format, a...)] = true }
@@ -126,6 +129,21 @@ func (x *Exec) literalAxioms() []*Term {
 	}
 	if len(ts) > 1 {
 		out = append(out, app("distinct", SBool, ts...))
+	}
+	// function constants are distinct non-nil values
+	var fnames []string
+	for n := range x.knownFuncs {
+		fnames = append(fnames, n)
+	}
+	sort.Strings(fnames)
+	var fts []*Term
+	for _, n := range fnames {
+		ft := mkVar(n, SInt)
+		fts = append(fts, ft)
+		out = append(out, mkCmp(">", ft, mkInt(0)))
+	}
+	if len(fts) > 1 {
+		out = append(out, app("distinct", SBool, fts...))
 	}
 	keys = keys[:0]
 	for k := range x.fltlits {
@@ -192,9 +210,6 @@ func (x *Exec) unbox(st *State, t types.Type, b *Term) Value {
 	}
 	v, _ := x.rebuild(t, ts)
 	x.typeFactsNoTop(st, v, t)
-	if pv, ok := v.(*PtrV); ok && pv.Kind == PRef {
-		x.assumeIn(st, mkCmp(">=", pv.Ref, mkInt(0)))
-	}
 	return v
 }
 
